@@ -24,10 +24,11 @@ import (
 // branch AB|CD are AC|BD and AD|BC.
 
 type c17case struct {
-	Model  string `json:"model_newick"`           // the (ordered, decorated) tree that is presented
-	Kind   string `json:"presentation"`           // parse | build | reroot | cli
-	PPos   []int  `json:"parent_pos,omitempty"`   // build: position of the parent among the neighbours of every non-root inner node (pre-order)
-	Reroot int    `json:"reroot_inner,omitempty"` // reroot: pre-order index (among inner nodes of the parsed tree) of the node given to Reroot
+	Model   string `json:"model_newick"`            // the (ordered, decorated) tree that is presented
+	Kind    string `json:"presentation"`            // parse | build | reroot | cli
+	PPos    []int  `json:"parent_pos,omitempty"`    // build: position of the parent among the neighbours of every non-root inner node (pre-order)
+	Reroot  int    `json:"reroot_inner,omitempty"`  // reroot: pre-order index (among inner nodes of the parsed tree) of the node given to Reroot
+	Collect bool   `json:"collect_first,omitempty"` // proposals are collected during the enumeration and applied / undone afterwards, in enumeration order
 }
 
 type c17result struct {
@@ -44,7 +45,8 @@ type c17result struct {
 // c17decorate labels the branches in pre-order with distinct dyadic values.
 // d=0: every branch has length i/8, every inner branch support i/16;
 // d=1: inner nodes and root are named, odd branches have a length, even ones none;
-// d=2: bare topology.
+// d=2: bare topology;
+// d=3: as d=0 plus a p-value on every inner branch (label support/p-value).
 func c17decorate(m *rm.Tree, d int) {
 	i := 0
 	m.Walk(func(n, p *rm.Node) {
@@ -60,6 +62,13 @@ func c17decorate(m *rm.Tree, d int) {
 			n.HasLen, n.Len = true, float64(i)/8
 			if !n.IsTip() {
 				n.HasSup, n.Sup = true, float64(i)/16
+			}
+		case 3:
+			// lengths, and support/p-value pairs on the inner branches
+			n.HasLen, n.Len = true, float64(i)/8
+			if !n.IsTip() {
+				n.HasSup, n.Sup = true, float64(i)/16
+				n.HasPv, n.Pv = true, float64(i)/64
 			}
 		case 1:
 			if i%2 == 1 {
@@ -433,7 +442,7 @@ func c17check(cs c17case) *c17result {
 			return false
 		}
 		// 3. the real enumeration; apply / undo in enumeration order
-		(&tree.NNIRearranger{}).Rearrange(t, func(re tree.Rearrangement) bool {
+		step := func(re tree.Rearrangement) bool {
 			k++
 			if k > expect+4 {
 				return fail("C17/count/too-many", fmt.Sprintf("more than %d proposals for %d branches with three neighbours at both ends", expect, len(brs)))
@@ -531,7 +540,23 @@ func c17check(cs c17case) *c17result {
 			}
 			res.cnt["reapplied"]++
 			return true
-		})
+		}
+		if cs.Collect {
+			// the proposals are collected first and applied / undone afterwards, in enumeration order
+			var all []tree.Rearrangement
+			(&tree.NNIRearranger{}).Rearrange(t, func(re tree.Rearrangement) bool {
+				all = append(all, re)
+				return len(all) <= expect+4
+			})
+			res.cnt["collected_enumerations"]++
+			for _, re := range all {
+				if !step(re) {
+					break
+				}
+			}
+		} else {
+			(&tree.NNIRearranger{}).Rearrange(t, step)
+		}
 		if res.key != "" {
 			return
 		}
@@ -692,6 +717,7 @@ func c17enumerate(quick bool, stop func() bool, visit func(cs c17case)) {
 				c17decorate(m, d)
 				txt := m.Newick()
 				visit(c17case{Model: txt, Kind: "parse"})
+				visit(c17case{Model: txt, Kind: "parse", Collect: true})
 				if full {
 					pp := make([]int, ninner)
 					var rec func(i int)
@@ -727,7 +753,7 @@ func c17enumerate(quick bool, stop func() bool, visit func(cs c17case)) {
 				emit(top, 0, false, 3)
 				return
 			}
-			for d := 0; d < 3; d++ {
+			for d := 0; d < 4; d++ {
 				if d == 0 && n <= fullN {
 					c17orders(top, func(o *rm.Tree) { emit(o, 0, true, 0) })
 					continue
@@ -806,7 +832,7 @@ func init() {
 			"for rooted trees the inner branches are those whose both ends have three neighbours (DESIGN §4): the root split of a rooted tree with two inner root children gets no proposal and none is demanded",
 			"gotree's Reroot is only used to produce further presentations; a presentation that is malformed before any NNI is counted (precondition_failed) and not judged",
 		},
-		Require: []string{"proposals", "applied", "undone", "reapplied", "full_enumerations", "tipset_checked", "one_split_diff_checked", "branches_with_two_proposals",
+		Require: []string{"proposals", "applied", "undone", "reapplied", "full_enumerations", "collected_enumerations", "tipset_checked", "one_split_diff_checked", "branches_with_two_proposals",
 			"neighbour_pairs_compared", "rooted_cases", "unrooted_cases", "rooted_cases_with_root_split_not_proposed", "applied_with_branch_reoriented",
 			"cli_runs", "cli_neighbours", "presentation_parse", "presentation_build", "presentation_reroot", "large_instances"},
 		Run: func(c *Ctx) {
